@@ -542,37 +542,21 @@ def encTouch (fields : List FK) (eager : Bool) : RecSt → List Nat → RecSt
       else (getAt fields st (k : Int) true).1
     | _ => encTouch fields eager st ks
 
+/-- a setter call: the position lookup may already fail (unknown name / tag) -/
+def setOut (fields : List FK) (st : RecSt) (i : Option Int) (a : Option Arg) (err : Out) : RecSt × Out :=
+  match i with
+  | none => (st, err)
+  | some i => match setAt fields st i a with
+    | some st' => (st', .unit)
+    | none => (st, err)
+
 def step (fields : List FK) (st : RecSt) : RecOp → RecSt × Out
-  | .setItemPos i a =>
-    (match setAt fields st i (some a) with
-     | some st' => (st', .unit)
-     | none => (st, .lookupErr))
-  | .setItemName k a =>
-    (match posOfName fields st k with
-     | none => (st, .lookupErr)
-     | some i => match setAt fields st i (some a) with
-       | some st' => (st', .unit)
-       | none => (st, .lookupErr))
-  | .setPos i a =>
-    (match setAt fields st i (some a) with
-     | some st' => (st', .unit)
-     | none => (st, .libErr))
-  | .setName k a =>
-    (match posOfName fields st k with
-     | none => (st, .libErr)
-     | some i => match setAt fields st i (some a) with
-       | some st' => (st', .unit)
-       | none => (st, .libErr))
-  | .setType k a =>
-    (match posOfType fields k with
-     | none => (st, .libErr)
-     | some i => match setAt fields st i (some a) with
-       | some st' => (st', .unit)
-       | none => (st, .libErr))
-  | .setNone i =>
-    (match setAt fields st i none with
-     | some st' => (st', .unit)
-     | none => (st, .libErr))
+  | .setItemPos i a => setOut fields st (some i) (some a) .lookupErr
+  | .setItemName k a => setOut fields st (posOfName fields st k) (some a) .lookupErr
+  | .setPos i a => setOut fields st (some i) (some a) .libErr
+  | .setName k a => setOut fields st (posOfName fields st k) (some a) .libErr
+  | .setType k a => setOut fields st (posOfType fields k) (some a) .libErr
+  | .setNone i => setOut fields st (some i) none .libErr
   | .clear => (⟨some [], 0⟩, .unit)
   | .reset => (⟨none, 0⟩, .unit)
   | .clone flag =>
@@ -1354,6 +1338,15 @@ def run (fields : List FK) : RecSt → List RecOp → RecSt × List Out
     let r := step fields st op
     let rest := run fields r.1 ops
     (rest.1, r.2 :: rest.2)
+
+/-- operations covered by the refinement theorem: all, except
+    * (finding T4-eq) `==` in the states where the library raises instead of answering,
+    * `encode` of an object that is not a value (the failing encoder instantiates a missing
+      mandatory component on its way out) -/
+def Allowed (fields : List FK) (st : RecSt) : RecOp → Bool
+  | .eqTo cs => st.comps.isNone || (step fields st (.eqTo cs)).2 != .libErr
+  | .encode _ => isValue fields st
+  | _ => true
 
 /-- shape invariant of the objects with declared fields: the component list is empty or padded to
     the declared length with at least one component instantiated; a DEFAULT slot never holds a
